@@ -3,7 +3,7 @@
  * on ES1, external thread}, each doing 1-2 rounds of lock/unlock variants. */
 #include "common.h"
 
-enum { A_U0, A_U1, A_TASK1, A_EXT };                 /* actor kinds */
+enum { A_U0, A_U1, A_TASK1, A_EXT, A_US /* ULT in a pool shared by ES1+ES2 */ };
 enum { L_LOCK, L_LOW, L_HIGH, L_SPIN, L_TRY };       /* lock kinds */
 enum { U_UNLOCK, U_SE, U_DE };                       /* unlock kinds */
 enum { M_DYN, M_REC, M_STATIC, M_STATIC_REC };       /* mutex kinds */
@@ -57,6 +57,15 @@ static const cfg_t cfgs[] = {
     { "recursive U0+U0 yield +U1", 0, M_REC, 3,
       { ACT(A_U0, L_LOCK, U_UNLOCK, 1, 1), ACT(A_U0, L_LOCK, U_UNLOCK, 1, 1),
         ACT(A_U1, L_LOCK, U_UNLOCK, 1, 0) } },
+    { "US.lock+US.lock x2+X.lock x2 (pool shared by ES1,ES2)", 1, M_DYN, 3,
+      { ACT(A_US, L_LOCK, U_UNLOCK, 1, 0), ACT(A_US, L_LOCK, U_UNLOCK, 2, 0),
+        ACT(A_EXT, L_LOCK, U_UNLOCK, 2, 0) } },
+    { "US.lock+US.high+U0.lock x2 (pool shared by ES1,ES2)", 0, M_DYN, 3,
+      { ACT(A_US, L_LOCK, U_UNLOCK, 1, 0), ACT(A_US, L_HIGH, U_DE, 1, 0),
+        ACT(A_U0, L_LOCK, U_UNLOCK, 2, 0) } },
+    { "recursive US+US+X (pool shared by ES1,ES2)", 0, M_REC, 3,
+      { ACT(A_US, L_LOCK, U_UNLOCK, 1, 0), ACT(A_US, L_LOCK, U_UNLOCK, 1, 0),
+        ACT(A_EXT, L_LOCK, U_UNLOCK, 1, 0) } },
     { "U0.low+U0.high+X", 0, M_DYN, 3,
       { ACT(A_U0, L_LOW, U_UNLOCK, 1, 0), ACT(A_U0, L_HIGH, U_UNLOCK, 1, 0),
         ACT(A_EXT, L_LOCK, U_UNLOCK, 1, 0) } },
@@ -161,11 +170,15 @@ static void scenario(int cfg)
 {
     C = &cfgs[cfg];
     h_init();
-    ABT_xstream es1 = ABT_XSTREAM_NULL;
-    int need_es1 = 0;
-    for (int i = 0; i < C->nactors; i++)
+    ABT_xstream es1 = ABT_XSTREAM_NULL, es2 = ABT_XSTREAM_NULL;
+    ABT_pool shared = ABT_POOL_NULL;
+    int need_es1 = 0, need_shared = 0;
+    for (int i = 0; i < C->nactors; i++) {
         if (C->a[i].actor == A_U1 || C->a[i].actor == A_TASK1)
             need_es1 = 1;
+        if (C->a[i].actor == A_US)
+            need_shared = 1;
+    }
     switch (C->mkind) {
         case M_DYN: OK(ABT_mutex_create(&mtx)); break;
         case M_REC: {
@@ -179,10 +192,21 @@ static void scenario(int cfg)
         case M_STATIC: mtx = ABT_MUTEX_MEMORY_GET_HANDLE(&static_mem); break;
         default: mtx = ABT_MUTEX_MEMORY_GET_HANDLE(&static_rec_mem); break;
     }
-    if (need_es1)
+    if (need_shared) {
+        /* two streams serve one pool: a blocked locker may resume on the other */
+        ABT_sched s1, s2;
+        OK(ABT_pool_create_basic(ABT_POOL_FIFO, ABT_POOL_ACCESS_MPMC, ABT_TRUE,
+                                 &shared));
+        OK(ABT_sched_create_basic(ABT_SCHED_BASIC, 1, &shared,
+                                  ABT_SCHED_CONFIG_NULL, &s1));
+        OK(ABT_sched_create_basic(ABT_SCHED_BASIC, 1, &shared,
+                                  ABT_SCHED_CONFIG_NULL, &s2));
+        OK(ABT_xstream_create(s1, &es1));
+        OK(ABT_xstream_create(s2, &es2));
+    } else if (need_es1)
         OK(ABT_xstream_create(ABT_SCHED_NULL, &es1));
     ABT_pool p0 = h_main_pool(h_self_xstream());
-    ABT_pool p1 = need_es1 ? h_main_pool(es1) : ABT_POOL_NULL;
+    ABT_pool p1 = (need_es1 && !need_shared) ? h_main_pool(es1) : ABT_POOL_NULL;
 
     abtmc_window_begin();
     ABT_thread th[3] = { ABT_THREAD_NULL, ABT_THREAD_NULL, ABT_THREAD_NULL };
@@ -200,6 +224,10 @@ static void scenario(int cfg)
                 break;
             case A_TASK1:
                 OK(ABT_task_create(p1, actor_body, arg, &th[i]));
+                break;
+            case A_US:
+                OK(ABT_thread_create(shared, actor_body, arg,
+                                     ABT_THREAD_ATTR_NULL, &th[i]));
                 break;
             default:
                 xt[i] = abtmc_thread_create(actor_body, arg);
@@ -248,9 +276,13 @@ static void scenario(int cfg)
     OK(ABT_mutex_unlock(mtx));
     if (C->mkind == M_DYN || C->mkind == M_REC)
         OK(ABT_mutex_free(&mtx));
-    if (need_es1) {
+    if (es1 != ABT_XSTREAM_NULL) {
         OK(ABT_xstream_join(es1));
         OK(ABT_xstream_free(&es1));
+    }
+    if (es2 != ABT_XSTREAM_NULL) {
+        OK(ABT_xstream_join(es2));
+        OK(ABT_xstream_free(&es2));
     }
     h_finalize();
 }
